@@ -4,7 +4,8 @@ usage: python -m harness.props.c09_worker OUT.json SEED N_RANDOM
 
 Runs short histories of admin requests that touch the passwords against the REAL application with the REAL bodies of the
 /device functions (get_device, put_device, patch_device; every other API body stays a recording stub), each history from
-the factory state (all three passwords empty, persisted through the in-memory JSON driver), then probes one endpoint per
+the factory state (all three passwords empty, persisted through the in-memory JSON driver); a history may contain RESTART
+(drop the in-memory device state, reload it with the real core.device.load() from the same store); then probes one endpoint per
 minimum level with: no header, a garbage header, and a token of every user signed with every password the history knows
 (old and current).  Writes what was observed; the parent evaluates it in Coq against Stateful.v (model) and Spec.v
 (hist_spec_ok: the password state the history SHOULD have produced — PUT /device keeps the passwords).
@@ -13,6 +14,7 @@ Passwords are abstract numbers: 0 = '' (empty), n = 'c09-pw-<n>'.
 """
 import asyncio
 import hashlib
+import importlib
 import json
 import random
 import sys
@@ -54,6 +56,8 @@ class Mirror:
         return LEVEL[cred[1]] if self.pw[cred[1]] == cred[2] else 0
 
     def apply(self, op, cred):
+        if op[0] == 'restart':
+            return
         if self.level(cred) >= 30 and op[0] == 'setpw':
             self.pw[op[1]] = op[2]
 
@@ -80,6 +84,16 @@ def curated():
         [(['setpw', 'admin', 1], ['none']), (['patchother'], A1), (['put'], A1), (['setpw', 'viewonly', 1], A1)],
         [(['patchother'], ['none']), (['put'], ['none'])],
         [],
+        # restarts: what a served operation changed must come back from the store, and nothing else
+        [(['setpw', 'admin', 1], ['none']), (['restart'], ['none'])],
+        [(['setpw', 'admin', 1], ['none']), (['setpw', 'normal', 2], A1), (['setpw', 'viewonly', 1], A1), (['restart'], ['none'])],
+        [(['setpw', 'admin', 1], ['none']), (['put'], A1), (['restart'], ['none'])],
+        [(['setpw', 'admin', 1], ['none']), (['patchother'], A1), (['restart'], ['none'])],
+        [(['setpw', 'admin', 1], ['none']), (['restart'], ['none']), (['setpw', 'admin', 2], A1), (['restart'], ['none'])],
+        [(['setpw', 'normal', 1], ['none']), (['restart'], ['none'])],
+        [(['setpw', 'admin', 1], ['none']), (['setpw', 'admin', 0], A1), (['restart'], ['none'])],
+        [(['setpw', 'admin', 1], ['none']), (['setpw', 'normal', 1], ['token', 'normal', 0]), (['restart'], ['none'])],
+        [(['restart'], ['none'])],
     ]
 
 
@@ -88,6 +102,9 @@ def random_history(rng):
     out = []
     for _ in range(rng.randint(1, 4)):
         r = rng.random()
+        if out and rng.random() < 0.2:
+            out.append((['restart'], ['none']))
+            continue
         if r < 0.55:
             op = ['setpw', rng.choice(USERS), rng.choice(PWS)]
         elif r < 0.85:
@@ -192,6 +209,15 @@ async def main(out_path, seed, n_random):
         steps = []
         for op, cred in hist:
             counter[0] += 1
+            if op[0] == 'restart':
+                # the hub stops and starts: the in-memory device state is dropped (module reloaded to its defaults, as a new
+                # process would have it) and read back from the same store by the real core.device.load(); the worker
+                # itself saves nothing here — only what the request bodies saved is in the store
+                importlib.reload(core_device_attrs)
+                await core_device.load()
+                steps.append({'op': op, 'cred': ['none'], 'request': 'RESTART (drop memory state, core.device.load() from the store)',
+                              'observed': ['status', 0]})
+                continue
             if op[0] == 'setpw':
                 method, body = 'PATCH', json.dumps({op[1] + '_password': pwtext(op[2])})
                 text = 'PATCH /api/device {"%s_password": "%s"}' % (op[1], pwtext(op[2]))
